@@ -125,6 +125,10 @@ type SchedCfg struct {
 	MaxSteps     int64    `json:"max_steps"`     // cap on scheduler decisions (0 = default)
 	StallProb    float64  `json:"stall_prob,omitempty"` // per decision: leave everything parked and let time reach the next timer
 	MaxStall     time.Duration `json:"max_stall,omitempty"`
+	// Overlap: when goroutines are parked AND a simulation event (a delivery, a peer action) is due,
+	// the seed decides which goes first. Without it every goroutine runs until it blocks before the
+	// next event is processed, so handlers reacting to events at different instants never overlap.
+	Overlap bool `json:"overlap,omitempty"`
 }
 
 // World owns scheduling, the event queue and the history.
@@ -155,6 +159,7 @@ type World struct {
 	lastSite  string
 	StepCapHit bool
 	Stalls     int64
+	Overlaps   int64 // events run while goroutines were parked
 	StalledFor time.Duration
 	stalled    bool
 	TraceOn    bool
@@ -364,6 +369,15 @@ func (w *World) Run(until time.Duration) {
 			}
 		}
 		w.stalled = false
+		if len(w.parked) > 0 && w.Cfg.Overlap && len(w.q) > 0 && w.q[0].at <= w.Now() && w.Steps < w.Cfg.MaxSteps && w.rng.Float() < 0.5 {
+			// a due event overtakes the parked goroutines
+			ev := heap.Pop(&w.q).(*event)
+			w.Events++
+			w.Overlaps++
+			w.mu.Unlock()
+			ev.run()
+			continue
+		}
 		if len(w.parked) > 0 {
 			if w.Steps >= w.Cfg.MaxSteps {
 				w.StepCapHit = true
